@@ -61,59 +61,66 @@ Fixpoint ws_scan (fuel : nat) (rs : str) : bool * nat :=
 
 (* strings.TrimLeft(actual, blank+tab) is only used for the error text *)
 
+(* ParseQuotes, the test for a multi-line opening.  [s1] is what follows the
+   first quote character c0.  Ok (Some qlen): multi-line with len(q.quote) = qlen;
+   Ok None: single line *)
+Definition pq_kind (c0 : N) (nh : nat) (s1 : str) : outcome (option nat) :=
+  match s1 with
+  | c1 :: c2 :: c3 :: s4 =>
+    if (c1 =? c0) && (c2 =? c0) && negb (c3 =? ch_hash) then
+      if c3 =? ch_nl then Ok (Some (3 + nh)%nat)
+      else if c3 =? ch_cr then
+        match s4 with
+        | c4 :: _ => if c4 =? ch_nl then Ok (Some (4 + nh)%nat) else Err EMissingOpeningNewline
+        | [] => Err EMissingOpeningNewline
+        end
+      else Err EMissingOpeningNewline
+    else Ok None
+  | _ => Ok None
+  end.
+
+(* ParseQuotes after the opening has been classified: matching closing quote,
+   closing-line whitespace, first-line whitespace *)
+Definition pq_finish (start end_ : str) (nh : nat) (c0 : N) (m : option nat)
+  : outcome (qinfo * nat * nat) :=
+  let numchar := match m with Some _ => 3%nat | None => 1%nat end in
+  let nstart0 := match m with Some ql => S ql | None => (1 + nh)%nat end in
+  let ln := (numchar + nh)%nat in
+  let qt := firstn ln start in
+  (* for i := 0; i < len(quote); i++ { j := len(end)-i-1; j < 0 || quote[i] != end[j] } *)
+  if negb (Nat.leb ln (length end_) && prefixb qt (rev end_)) then Err EUnmatchedQuote
+  else
+    match m with
+    | None => Ok (mkQ nh false c0 1 [], nstart0, ln)
+    | Some _ =>
+      let body_rev := skipn ln (rev end_) in      (* rev (end[:len(end)-len(quote)]) *)
+      let '(has_nl, i) := ws_scan (S (length body_rev)) body_rev in
+      if negb has_nl then Err EMissingClosingNewline
+      else
+        let ws := firstn (length end_ - ln - i) (skipn i end_) in
+        let q := mkQ nh true c0 3 ws in
+        match skipn nstart0 start with
+        | (c :: _) as rest =>
+          if negb (c =? ch_nl) then
+            if negb (prefixb ws rest) then Err EInvalidWhitespace
+            else Ok (q, (nstart0 + length ws)%nat, ln)
+          else Ok (q, nstart0, ln)
+        | [] => Ok (q, nstart0, ln)
+        end
+    end.
+
 (* ParseQuotes(start, end) : (q, nStart, nEnd) *)
 Definition parse_quotes (start end_ : str) : outcome (qinfo * nat * nat) :=
   let nh := count_prefix ch_hash start in
-  let s := skipn nh start in
-  match s with
+  match skipn nh start with
   | [] => Err ESyntax
   | c0 :: s1 =>
     if (c0 =? ch_dq) || (c0 =? ch_sq) then
-      (* Some qlen: multiline with len(q.quote) = qlen; None: single line *)
-      let multi : outcome (option nat) :=
-        match s1 with
-        | c1 :: c2 :: c3 :: s4 =>
-          if (c1 =? c0) && (c2 =? c0) && negb (c3 =? ch_hash) then
-            if c3 =? ch_nl then Ok (Some (3 + nh)%nat)
-            else if c3 =? ch_cr then
-              match s4 with
-              | c4 :: _ => if c4 =? ch_nl then Ok (Some (4 + nh)%nat) else Err EMissingOpeningNewline
-              | [] => Err EMissingOpeningNewline
-              end
-            else Err EMissingOpeningNewline
-          else Ok None
-        | _ => Ok None
-        end in
-      match multi with
+      match pq_kind c0 nh s1 with
       | Err e => Err e
       | Panic => Panic
       | OutOfFuel => OutOfFuel
-      | Ok m =>
-        let numchar := match m with Some _ => 3%nat | None => 1%nat end in
-        let nstart0 := match m with Some ql => S ql | None => (1 + nh)%nat end in
-        let ln := (numchar + nh)%nat in
-        let qt := firstn ln start in
-        (* for i := 0; i < len(quote); i++ { j := len(end)-i-1; j < 0 || quote[i] != end[j] } *)
-        if negb (Nat.leb ln (length end_) && prefixb qt (rev end_)) then Err EUnmatchedQuote
-        else
-          match m with
-          | None => Ok (mkQ nh false c0 1 [], nstart0, ln)
-          | Some _ =>
-            let body_rev := skipn ln (rev end_) in      (* rev (end[:len(end)-len(quote)]) *)
-            let '(has_nl, i) := ws_scan (S (length body_rev)) body_rev in
-            if negb has_nl then Err EMissingClosingNewline
-            else
-              let ws := firstn (length end_ - ln - i) (skipn i end_) in
-              let q := mkQ nh true c0 3 ws in
-              match skipn nstart0 start with
-              | (c :: _) as rest =>
-                if negb (c =? ch_nl) then
-                  if negb (prefixb ws rest) then Err EInvalidWhitespace
-                  else Ok (q, (nstart0 + length ws)%nat, ln)
-                else Ok (q, nstart0, ln)
-              | [] => Ok (q, nstart0, ln)
-              end
-          end
+      | Ok m => pq_finish start end_ nh c0 m
       end
     else Err ESyntax
   end.
